@@ -93,6 +93,9 @@ func (p *dtPath) clone() *dtPath {
 	return n
 }
 
+// dtLoopK: where break and continue of an unrolled table loop go.
+type dtLoopK struct{ onBreak, onContinue func(p *dtPath) }
+
 // dtFrame: where a followed call returns to.
 type dtFrame struct {
 	k      func(p *dtPath, rets []string)
@@ -125,6 +128,11 @@ type dtEnum struct {
 	// hoistCalls: calls of callInline functions nested inside the expressions of a statement are followed
 	// first (in source order) and printed as what the callee returned
 	hoistCalls bool
+	// unrollTables: `for _, row := range <literal table>` (the literal itself, or a local listed in tables) runs
+	// its body once per row, in order, with the row's fields known; break and continue behave as in the loop
+	unrollTables bool
+	tables       map[types.Object]*ast.CompositeLit
+	loopK        []dtLoopK
 	// boolReturns: a non-constant boolean result splits the path (the path then returns true or false)
 	boolReturns bool
 	// constStrings: named string constants of the analysed module print as their literal value
@@ -174,7 +182,15 @@ func (d *dtEnum) canon(p *dtPath, e ast.Expr) string {
 				return strings.TrimPrefix(pn.Imported().Path(), modPath+"/") + "." + x.Sel.Name
 			}
 		}
-		return d.canon(p, x.X) + "." + x.Sel.Name
+		base := d.canon(p, x.X)
+		if d.unrollTables && strings.HasSuffix(base, "}") {
+			if _, vals, ok := splitStructLit(base); ok {
+				if v, has := vals[x.Sel.Name]; has {
+					return v
+				}
+			}
+		}
+		return base + "." + x.Sel.Name
 	case *ast.IndexExpr:
 		return d.canon(p, x.X) + "[" + d.canon(p, x.Index) + "]"
 	case *ast.SliceExpr:
@@ -282,6 +298,14 @@ func (d *dtEnum) canon(p *dtPath, e ast.Expr) string {
 							vals[id.Name] = d.canon(p, kv.Value)
 						}
 					}
+				}
+				return renderStructLit(t, st, vals)
+			}
+			if d.unrollTables && len(x.Elts) == st.NumFields() {
+				// positional: the same fields by position
+				vals := map[string]string{}
+				for i, e := range x.Elts {
+					vals[st.Field(i).Name()] = d.canon(p, e)
 				}
 				return renderStructLit(t, st, vals)
 			}
@@ -738,7 +762,8 @@ func (d *dtEnum) stmt(p *dtPath, s ast.Stmt, k func(p *dtPath)) {
 					if x.Tok == token.ASSIGN || x.Tok == token.DEFINE {
 						d.bind(p, id, vals[i])
 					} else {
-						d.bind(p, id, d.canon(p, l)+" "+x.Tok.String()+" "+vals[i])
+						// x op= y is x = x op y
+						d.bind(p, id, d.canon(p, l)+" "+strings.TrimSuffix(x.Tok.String(), "=")+" "+vals[i])
 					}
 				} else {
 					p.Steps = append(p.Steps, "store "+d.canon(p, l)+" = "+vals[i])
@@ -918,6 +943,45 @@ func (d *dtEnum) stmt(p *dtPath, s ast.Stmt, k func(p *dtPath)) {
 			try(p, 0)
 		})
 	case *ast.ForStmt, *ast.RangeStmt:
+		if rs, isRange := s.(*ast.RangeStmt); isRange && d.unrollTables {
+			var table *ast.CompositeLit
+			switch t := ast.Unparen(rs.X).(type) {
+			case *ast.CompositeLit:
+				table = t
+			case *ast.Ident:
+				table = d.tables[d.info.Uses[t]]
+			}
+			val, hasVal := rs.Value.(*ast.Ident)
+			keyOK := rs.Key == nil
+			if kid, ok := rs.Key.(*ast.Ident); ok && kid.Name == "_" {
+				keyOK = true
+			}
+			if table != nil && hasVal && keyOK && len(table.Elts) > 0 && len(table.Elts) <= 16 {
+				var run func(p *dtPath, i int)
+				run = func(p *dtPath, i int) {
+					if i >= len(table.Elts) {
+						k(p)
+						return
+					}
+					row := table.Elts[i]
+					if kv, ok := row.(*ast.KeyValueExpr); ok {
+						row = kv.Value
+					}
+					d.bind(p, val, d.canon(p, row))
+					d.loopK = append(d.loopK, dtLoopK{onBreak: k, onContinue: func(q *dtPath) { run(q, i+1) }})
+					depth := len(d.loopK)
+					d.stmts(p, rs.Body.List, func(q *dtPath) {
+						saved := d.loopK
+						d.loopK = d.loopK[:depth-1]
+						run(q, i+1)
+						d.loopK = saved
+					})
+					d.loopK = d.loopK[:depth-1]
+				}
+				run(p, 0)
+				return
+			}
+		}
 		p.Steps = append(p.Steps, "loop")
 		// anything assigned inside becomes unknown
 		ast.Inspect(s, func(n ast.Node) bool {
@@ -936,6 +1000,18 @@ func (d *dtEnum) stmt(p *dtPath, s ast.Stmt, k func(p *dtPath)) {
 		p.Steps = append(p.Steps, "defer "+d.canon(p, x.Call))
 		k(p)
 	case *ast.BranchStmt:
+		if n := len(d.loopK); n > 0 && x.Label == nil && (x.Tok == token.BREAK || x.Tok == token.CONTINUE) {
+			lk := d.loopK[n-1]
+			saved := d.loopK
+			d.loopK = d.loopK[:n-1]
+			if x.Tok == token.BREAK {
+				lk.onBreak(p)
+			} else {
+				lk.onContinue(p)
+			}
+			d.loopK = saved
+			return
+		}
 		p.RetPos = x.Pos()
 		d.finish(p, x.Tok.String())
 	default:
@@ -1381,4 +1457,42 @@ func nillableOperand(info *types.Info, e ast.Expr) bool {
 		}
 	}
 	return false
+}
+
+// literalTables: the locals of fd defined exactly once, as a slice or array literal, and never assigned again.
+func literalTables(info *types.Info, fd *ast.FuncDecl) map[types.Object]*ast.CompositeLit {
+	out := map[types.Object]*ast.CompositeLit{}
+	n := map[types.Object]int{}
+	ast.Inspect(fd.Body, func(x ast.Node) bool {
+		as, ok := x.(*ast.AssignStmt)
+		if !ok {
+			return true
+		}
+		for i, l := range as.Lhs {
+			id, ok := l.(*ast.Ident)
+			if !ok {
+				continue
+			}
+			obj := objOf(info, id)
+			if obj == nil {
+				continue
+			}
+			n[obj]++
+			if len(as.Lhs) == len(as.Rhs) {
+				if cl, ok := ast.Unparen(as.Rhs[i]).(*ast.CompositeLit); ok {
+					switch info.TypeOf(cl).Underlying().(type) {
+					case *types.Slice, *types.Array:
+						out[obj] = cl
+					}
+				}
+			}
+		}
+		return true
+	})
+	for obj := range out {
+		if n[obj] != 1 {
+			delete(out, obj)
+		}
+	}
+	return out
 }
